@@ -174,6 +174,7 @@ def main():
         ROOT = os.path.abspath(str(root))
         EVENTS.clear()
         raised, exc = 0, ''
+        second = None
         so = sys.stdout
         sys.stdout = devnull
         cwd = os.getcwd()
@@ -181,6 +182,19 @@ def main():
         try:
             kw = dict(c.get('kwargs', {}))
             fd.write(c['format'], c['name'], **kw)
+            if c.get('second_call'):
+                # same object, same name again: must raise or at least change nothing
+                first_events = list(EVENTS)
+                mid = snapshot(root)
+                try:
+                    fd.write(c['format'], c['name'], **kw)
+                    r2 = 0
+                except Exception:  # noqa
+                    r2 = 1
+                after2 = snapshot(root)
+                second = {'raised': r2,
+                          'changed': sorted(q for q in mid if after2.get(q) != mid[q])}
+                EVENTS[:] = first_events
         except Exception as e:  # noqa
             raised, exc = 1, f'{type(e).__name__}: {e}'
         finally:
@@ -192,7 +206,7 @@ def main():
         changed = sorted(q for q in before if after.get(q) != before[q])
         new = sorted(q for q in after if q not in before)
         results.append({'id': c['id'], 'raised': raised, 'exc': exc, 'events': events,
-                        'changed': changed, 'new': new})
+                        'changed': changed, 'new': new, 'second': second})
         shutil.rmtree(root)
     with _open(cases['out'], 'w') as f:
         json.dump(results, f)
